@@ -19,6 +19,13 @@ CHECKS = {
                      'exactly one call of the same method on the wrapped value with the same arguments (pointer identity) and to hand its result '
                      'back unchanged; clones share the Arc. Forwarding for an arbitrary implementation implies transparency for yaserde-derived ones.',
                 note='trusted: Kani/CBMC; yaserde derive output itself is outside; Serializer/Deserializer are never dereferenced; Debug forwarding not harnessed'),
+    'C15': dict(engine='E2-smi', cat='model_checking', design='4/C15',
+                technique='symbolic execution of the MIR of write_xml (own interpreter + z3) with a symbolic sink-failure index',
+                text='RustDocument::write_xml and every emitter it reaches are executed symbolically from their MIR into a sink that fails at a '
+                     'symbolic write-call index k; z3 decides the feasibility of each k, one exploration covers every failure point of each corpus '
+                     'document; every path with an injected failure must end in Err(WriterError::Io), never a panic or Ok. Violations are replayed on '
+                     'the natively built zeep-lib with a failing io::Write.',
+                note='trusted: SMI environment models (validated byte-for-byte against the native binary on 9 repository inputs per run), z3; corpus documents bound the claim'),
 }
 
 NA = {
@@ -26,7 +33,7 @@ NA = {
     'C04': 'deserialization and round-trip are executed by yaserde derive expansion and xml-rs at run time (fmt/dyn/heap); CBMC cannot get through it and the MIR interpreter covers zeep, not yaserde',
     'C18': 'Send/Sync are auto-trait facts computed by rustc from the coroutine layout, not properties of executions a bounded symbolic run can falsify',
 }
-PENDING = ['C02', 'C03', 'C05', 'C07', 'C08', 'C09', 'C10', 'C11', 'C12', 'C13', 'C14', 'C15', 'C16', 'C17']
+PENDING = ['C02', 'C03', 'C05', 'C07', 'C08', 'C09', 'C10', 'C11', 'C12', 'C13', 'C14', 'C16', 'C17']
 
 
 def main():
